@@ -38,6 +38,7 @@ Inductive req :=
 | RAct (sc : scope) (data : bool)        (* activate [specifier] [data]; data must be absent *)
 | RDeact (sc : scope) (data : bool)
 | RIdn                                   (* the identification request *)
+| RBogus                                 (* a request line whose action is '_ident': not a SECoP action *)
 | RClose.                                (* the peer closes the connection: receive raises ConnectionClose *)
 
 Inductive reply :=
@@ -205,6 +206,7 @@ Definition handle (nd : node) (s : state) (c : conn) (r : req) : state :=
            | Some e => set_cpc s c (CSendR (RpErr e))
            | None => enter_groups (set_dlock (register s c sc) (Some c)) c sc (snapshot_groups nd sc)
            end
+  | RBogus => set_cpc s c (CSendR (RpErr 0))      (* since bfc762a: ProtocolError, the identification handler is not reached *)
   | RClose => set_cpc s c (CSendR (RpErr 0))      (* not a request: never reaches the dispatcher *)
   end.
 
